@@ -117,6 +117,8 @@ pub fn traverse(world: &WorldRef, with_shx: bool, rstack: StackCfg, n_expected: 
         for k in 0..cap {
             let first = evs(world);
             let x = it.next();
+            // what collect() and the adaptors do after every item, an error included
+            let _ = it.size_hint();
             let end = evs(world);
             let res = x.map(|x| x.map(|s| capture(&s)).map_err(|e| classify(&e)));
             // with an index the iterator can go on to the next entry after an error (and a
@@ -158,6 +160,7 @@ pub fn traverse(world: &WorldRef, with_shx: bool, rstack: StackCfg, n_expected: 
         for k in 0..cap {
             let first = evs(world);
             let x = it.next();
+            let _ = it.size_hint();
             let end = evs(world);
             let res = x.map(|x| x.map(|s| capture(&s)).map_err(|e| classify(&e)));
             let stop = !matches!(res, Some(Ok(_)));
@@ -195,6 +198,7 @@ pub fn traverse(world: &WorldRef, with_shx: bool, rstack: StackCfg, n_expected: 
             for k in 0..2usize {
                 let first = evs(world);
                 let x = it.next();
+                let _ = it.size_hint();
                 let end = evs(world);
                 let res = x.map(|x| x.map(|s| capture(&s)).map_err(|e| classify(&e)));
                 let stop = res.is_none();
@@ -563,7 +567,7 @@ fn unit_with(w: WProg, r: &mut Rng, trunc_stride: usize, op_stride: u32, ctx: &m
                 // a short transfer followed by a failure: one-shot fault at k under 1-, 3- and 5-byte reads
                 if rs == StackCfg::Direct {
                     for c in [1u32, 3, 5] {
-                        let w1 = World::with_data(Plan { faults: vec![], dev: [DevCfg { chunks: vec![c], eintr: None, capacity: None }, DevCfg::default(), DevCfg::default()] }, fl.shp.clone(), fl.shx.clone(), vec![]);
+                        let w1 = World::with_data(Plan { faults: vec![], dev: [DevCfg { chunks: vec![c], eintr: None, capacity: None, start: 0 }, DevCfg::default(), DevCfg::default()] }, fl.shp.clone(), fl.shx.clone(), vec![]);
                         let _ = traverse(&w1, true, rs, fl.expected.len());
                         let ops1 = w1.borrow().devices[SHP].ops;
                         let stride = (ops1 / if op_stride > 100 { 40 } else { 400 }).max(1);
